@@ -221,7 +221,43 @@ func runProperty(p *Prog, pc *PropConfig, cfg RunConfig, tags string, only strin
 			if c.Flags["optional"] != "" {
 				continue
 			}
-			r.errors = append(r.errors, fmt.Sprintf("%s:%d: contract for %s: no such function in the %s build", c.File, c.Line, c.Key, buildName(tags)))
+			// the function the contract is written for is gone (a closure was inlined or renumbered, a helper
+			// renamed): harmless refactoring or a break of the property? The replay decides, as for a contract
+			// that no longer fits; without a replay, or if the replay passes, it stays a CHECK-ERROR.
+			msg := fmt.Sprintf("%s:%d: contract for %s: no such function in the %s build", c.File, c.Line, c.Key, buildName(tags))
+			tmpl := ""
+			if c.Flags["replay"] != "" && len(strings.Fields(c.Flags["replay"])) == 1 {
+				tmpl = c.Flags["replay"]
+			} else if propReplay[pc.ID] != "" {
+				tmpl = propReplay[pc.ID]
+			}
+			if tmpl != "" && len(p.AllFns) > 0 && hasProp(c.Props, pc.ID) {
+				var host *ssa.Function
+				for _, f := range p.AllFns {
+					if len(f.Blocks) > 0 && p.inModule(f) {
+						host = f
+						break
+					}
+				}
+				if host != nil {
+					hc := &Contract{Key: host.String(), Kind: "func", Pkg: p.ModPath, Mode: ModeInt, Props: []string{pc.ID}, Loops: map[int]*LoopSpec{}, Flags: map[string]string{}, File: c.File}
+					hfv := newFuncVC(p, host, hc)
+					hfv.Name = strings.ReplaceAll(c.Key, p.ModPath+"/", "") + suffix
+					hfv.activeProp = pc.ID
+					hfv.replayTemplate = tmpl
+					o := &Obligation{Name: hfv.Name + "#contract-applies", Kind: "contract", Props: []string{pc.ID}, Where: fmt.Sprintf("%s:%d", c.File, c.Line), Src: msg,
+						Reach: "true", Goal: "false", Func: hfv.Name, fv: hfv, candidate: true, Block: -1}
+					rf := replayFile{}
+					tryReplay("/verif", pc.ID, o, &rf)
+					if o.replayed {
+						o.Status = "failed"
+						o.Res = SolveResult{Verdict: VUnknown, All: map[string]string{"contract": msg}}
+						r.extraObl = append(r.extraObl, o)
+						continue
+					}
+				}
+			}
+			r.errors = append(r.errors, msg)
 			continue
 		}
 		fv := newFuncVC(p, fn, c)
